@@ -206,7 +206,11 @@ def c14(tier, seed):
         adm = admissible[(req["rid"], n)]
         facts = {"est": req["est"], "alphas": req["alphas"], "dup": req["dup"], "n": n, "outcome": tr["outcome"]}
         if tr["n"] != n or tr["dup"] != req["dup"]:
-            raise tlc.MachineryError(f"materialiser: wanted n={n} dup={req['dup']}, the model saw n={tr['n']} dup={tr['dup']}")
+            # the election was built with exactly n reporting rows (feed rows at or above the threshold, present in the
+            # baseline): a model that is handed another number of reporting units counts something else as reporting
+            facts["clause"] = "reporting_units_handed_to_the_model"
+            run.violation("reporting_units_handed_to_the_model", facts, {"built_with": {"n": n, "dup": req["dup"]}, "model_saw": {"n": tr["n"], "dup": tr["dup"]}, "run": tr})
+            continue
         outcomes = {o for o, _ in adm}
         if tr["outcome"] not in outcomes:
             facts["clause"] = "gate_outcome"
